@@ -71,11 +71,8 @@ impl MT950 {
         // Parse optional statement lines (repetitive)
         let mut field_61_vec = Vec::new();
         while parser.detect_field("61") {
-            if let Ok(field) = parser.parse_field::<Field61>("61") {
-                field_61_vec.push(field);
-            } else {
-                break;
-            }
+            let field = parser.parse_field::<Field61>("61")?;
+            field_61_vec.push(field);
         }
         let field_61 = if field_61_vec.is_empty() {
             None
